@@ -38,6 +38,7 @@ def cfg(tier, lazy_only):
         max_ops=8 if tier == "quick" else 14,
         p_binary=0.12,
         loose_bounds=True,
+        p_meth=15,
     )
 
 
@@ -48,7 +49,32 @@ def budget(tier):
 def strategy(tier):
     from hypothesis import strategies as st
 
-    return st.tuples(st.one_of(st_program(cfg(tier, True)), st_program(cfg(tier, False))), st.integers(1, 3))
+    return st.tuples(st.one_of(st_program(cfg(tier, True)), st_program(cfg(tier, False)), st_topped(tier)), st.integers(1, 3))
+
+
+def st_topped(tier):
+    """A program topped with an eager operation and a non-empty window: sort (or deduplication) directly over whatever
+    the program ends in, then a bounded slice, then possibly one more lazy operation ("ORDER BY ... LIMIT" shapes)."""
+    from hypothesis import strategies as st
+
+    from vf.core.gen import st_unary_node
+    from vf.core.prog import schema
+
+    @st.composite
+    def build(draw):
+        universe, leaves, prog = draw(st_program(cfg(tier, draw(st.booleans()))))
+        cols = schema(prog, leaves)
+        c = cfg(tier, False)
+        eager = draw(st_unary_node(prog, cols, universe, (draw(st.sampled_from(["sort", "sort", "dedup"])),), c))
+        if eager is None:
+            return (universe, leaves, prog)
+        start = draw(st.integers(0, 1))
+        out = ("slice", eager, start, start + draw(st.integers(1, 3)))
+        if draw(st.booleans()):
+            out = draw(st_unary_node(out, cols, universe, ("sel", "calc", "proj"), c)) or out
+        return (universe, leaves, out)
+
+    return build()
 
 
 def occurrences(root, env):
